@@ -252,6 +252,29 @@ def canon_wrapper(f, mod, name, ep):
             bridged.append("%s:%d:%d" % (v, 1 if "into_response" in arm else 0, 1 if "into_empty" in arm else 0))
     lines.append("wrapper %s tables=%s" % (name, ",".join(tables)))
     lines.append("wrapper %s bridged=%s" % (name, ",".join(bridged)))
+    # schema: any_of over the parts; query responses: the parts' tables flattened into one map
+    acc = {"execute": "Exec", "query": "Query", "sudo": "Sudo"}[ep]
+
+    def part_of(expr):
+        m = re.fullmatch(r"< (.+?) as (?:(.+) :: sv :: InterfaceMessagesApi|sylvia :: types :: ContractApi) > :: (\w+)", expr.strip())
+        if not m:
+            return "?" + expr.strip()
+        modp = nows(m.group(2)) if m.group(2) else "self"
+        return modp if m.group(3) == acc else "%s!%s" % (modp, m.group(3))
+    for k, v in f.kv:
+        mm = re.fullmatch(r"(%s::impl#\d+)\|impl" % re.escape(mod), k)
+        if not mm or not re.search(r"self=%s\b" % name, v.strip()):
+            continue
+        if "JsonSchema" in v:
+            body = f.one(mm.group(1) + "::json_schema|body", "")
+            parts = re.findall(r"gen \. subschema_for :: < (< .+? > :: \w+) > \(\)", body)
+            kind = "any_of" if re.search(r"any_of : Some", body) else "other"
+            lines.append("wrapper %s schema=%s:%s" % (name, kind, ",".join(part_of(x) for x in parts)))
+        if "QueryResponses" in v:
+            body = f.one(mm.group(1) + "::response_schemas_impl|body", "")
+            parts = re.findall(r"(< [^\[\]]+? > :: \w+) :: response_schemas_impl \(\)", body)
+            how = "flatten" if re.search(r"responses \. into_iter \(\) \. flatten \(\) \. collect \(\) \}$", body) else "other"
+            lines.append("wrapper %s responses=%s:%s" % (name, how, ",".join(part_of(x) for x in parts)))
     return lines
 
 
